@@ -144,7 +144,7 @@ def dumpNode (i : Nat) (nd : Node) (rawTag : Bytes) : String :=
 
 def dumpCache (n : Nat) (c : Cache) : String :=
   if n ≤ 1 then "-" else
-  String.join (((List.range n).drop 1).map fun i => toString (c.res i).toNat ++ toString (c.loc i).toNat)
+  String.join (((List.range n).drop 1).map fun i => toString (colGet c.res i).toNat ++ toString (colGet c.loc i).toNat)
 
 def dumpValid (v : Comp → Bool) : String :=
   String.ofList ("SUHIQCMR".toList.filter fun ch =>
@@ -215,7 +215,7 @@ def condLine : List String → String
       if n = 0 then "bad-op" else
       let tree := toString n ++ String.join (((List.range n).drop 1).map fun i =>
         " " ++ dumpNode i (t.node i) ((nds.getD i default).2))
-      match runOps t n opToks [default] [] with
+      match runOps t n opToks [Req.fresh n] [] with
       | none => "bad-op"
       | some outs => tree ++ " /" ++ String.join (outs.map (" " ++ ·))
   | _ => "bad-op"
